@@ -699,12 +699,10 @@ for _prop, _side in (("firstGlyphs", "side1"), ("secondGlyphs", "side2")):
         canaries={"always-one": "len(result) == 1"},
         runtime=Runtime(_lt_cases, lambda d: {"self": _lt_build(d)["self"]}, call=lambda fn, a: fn.fget(a["self"])),
     )
-# (not registered: `(*self.firstGlyphs, *self.secondGlyphs)` - starred elements of symbolic length in a tuple display are
-# outside the engine, request 12)
 contract(
     f"{_KP_MOD}:KerningPair.glyphs",
     name="KPairT",
-    props=[],
+    props=["C05"],
     params={"self": Ref("KPairT")},
     returns=TupleOf(STR),
     ensures={"concat": "list(result) == list(self.firstGlyphs) + list(self.secondGlyphs)"},
